@@ -1,7 +1,7 @@
 """C12 -- client results do not depend on pipelining depth or request bundling; operation strings mean what they spell.
 
 Part A (equivalence).  The real client.connector runs over mc.clientenv (no sockets, no clocks) against the real
-enip_srv_tcp.  For EVERY list of operations over a 10-operation alphabet, for every setting (synchronous / pipeline
+enip_srv_tcp.  For EVERY list of operations over an 11-operation alphabet, for every setting (synchronous / pipeline
 depth, Multiple Service Packet size limit, fragment on/off) the yielded results are compared with an array model
 written here from the statement, and the recorded request frames are decoded with mc.refcip.
 
@@ -23,19 +23,19 @@ from mc import clientenv as CE, refcip as R, sim
 ID = "C12"
 LEVEL = "exploration"
 ISOLATE_SHARDS = True        # every shard runs in a forked child of a pristine worker (mc/core.py)
-RULE = ("A: every list of <= N operations over a 10-operation alphabet (tag / @class/inst/attr reads, element ranges, byte "
-        "offset, casted writes, a refused write, a refused read, Get/Set Attribute Single, two operations with their own "
+RULE = ("A: every list of <= N operations over an 11-operation alphabet (tag / @class/inst/attr reads, element ranges, byte "
+        "offset, casted writes, a refused write, a refused read, Get/Set Attribute Single, a generic service-code operation with a payload, two operations with their own "
         "route_path / send_path) x every setting (synchronous | depth) x multiple x fragment, one real client run each; "
         "non-trivial = (list, setting) with >= 2 operations.  B: every string of the operation grammar x fragment x "
         "int_type against the reference parser; every segment list x count through format_path/parse_path; "
         "non-trivial = string with an index, count, offset or value part / path with >= 2 segments")
 BOUNDS = {
-    "quick": "A: all 1110 lists of <=3 ops x 10 settings (sync,1,2,3,5 x multiple 0/80/150/500 x fragment, a covering subset), "
-             "whole-chunk eager delivery; all 110 lists of <=2 ops additionally byte-at-a-time, lazy-server and validating "
+    "quick": "A: all 1463 lists of <=3 ops x 10 settings (sync,1,2,3,5 x multiple 0/80/150/500 x fragment, a covering subset), "
+             "whole-chunk eager delivery; all 132 lists of <=2 ops additionally byte-at-a-time, lazy-server and validating "
              "runs.  B: full grammar (10 paths x 7 indices x 4 counts x 5 offsets x 20 value parts x fragment x 3 int_types) "
              "and 2940 segment lists",
     "thorough": "A: all lists of <=3 ops x all 40 settings (sync,1,2,3,5 x 0/80/150/500 x fragment on/off) + byte-at-a-time, "
-                "lazy-server and validating runs on the 10 quick settings; all 10^4 lists of 4 ops x 16 settings (sync,1,2,3 x "
+                "lazy-server and validating runs on the 10 quick settings; all 11^4 lists of 4 ops x 16 settings (sync,1,2,3 x "
                 "4 multiples, fragment alternating; depth 5 omitted there: with <= 4 request frames every depth >= 3 issues "
                 "everything before the first harvest).  B: as quick",
 }
@@ -77,6 +77,9 @@ OPS = [
     dict(text="a[0-3]+4", via="tag", kw={"route_path": [{"port": 1, "link": 1}]}, model=("read", "a", 0, 4, 4), path=SYM("a", 0),
          route=[{"port": 1, "link": 1}]),
     dict(text="b[1]=(DINT)70000", via="tag", kw={"send_path": "@6/1"}, model=("write", "b", 1, [70000], 0xC4), path=SYM("b", 1)),
+    # an operation given as a dict (the documented form for a generic CIP service): service 0x10 with a 4-byte payload
+    dict(text="service_code 0x10 @0x401/1/2 data 7,0,8,0", via="dict", kw={}, model=("sas", "s", [7, 8]), path=CIA(0x401, 1, 2),
+         op=dict(method="service_code", code=0x10, path="@0x401/1/2", data=[7, 0, 8, 0])),
 ]
 NOPS = len(OPS)
 
@@ -164,6 +167,9 @@ def build_ops(M, GA, idxs):
     ops = []
     for i in idxs:
         o = OPS[i]
+        if o["via"] == "dict":
+            ops.append(dict(o["op"], data=list(o["op"]["data"])))
+            continue
         parse = M.client.parse_operations if o["via"] == "tag" else GA.attribute_operations
         op, = parse([o["text"]], **o["kw"])
         ops.append(op)
